@@ -687,6 +687,25 @@ func gen(t *rapid.T) Case {
 	for i := range c.Plan {
 		c.Plan[i] = genStep(t)
 	}
+	// Error burst: the statement allows any (finite) number of transient errors for one range
+	// request, so about one plan in eight contains a long run of consecutive failing answers
+	// (cheap: the fetcher retries non-500 errors immediately).  With a single fetcher the whole
+	// run hits one range; with more fetchers the run is made longer.
+	if n > 0 && rapid.IntRange(0, 7).Draw(t, "error-burst") == 0 {
+		if rapid.Bool().Draw(t, "burst-single-fetcher") {
+			c.Fetchers = 1
+		}
+		run := rapid.IntRange(9, 24).Draw(t, "burst-len") * c.Fetchers
+		at := 0
+		if len(c.Plan) > 0 {
+			at = rapid.IntRange(0, len(c.Plan)).Draw(t, "burst-at")
+		}
+		burst := make([]Step, run)
+		for i := range burst {
+			burst[i] = Step{Kind: rapid.SampledFrom([]int{sHTTPError, sHTTPError, sClose, sShortBody}).Draw(t, "burst-kind"), Arg: rapid.IntRange(0, 40).Draw(t, "burst-arg")}
+		}
+		c.Plan = append(append(append([]Step{}, c.Plan[:at]...), burst...), c.Plan[at:]...)
+	}
 	return c
 }
 
